@@ -27,7 +27,7 @@ def main():
             "evidence_file": "evidence/%s.json" % p,
             "replay_cmd_template": "./vf replay {path}",
             "engine": "coq-proof+correspondence",
-            "level_claimed": {"category": "proof", "text": meta["text"], "design_ref": meta.get("design_ref", "DESIGN.md section 5, " + p)},
+            "level_claimed": {"category": "proof", "text": meta["text"], "design_ref": meta.get("design_ref", "DESIGN.md section 0.4 (as built) and section 5, " + p)},
             "level_note": meta["note"],
             "technique": meta["technique"],
         })
